@@ -1,3 +1,78 @@
 package main
 
-func refDigestMain(args []string) {}
+import (
+	"fmt"
+	"hash/fnv"
+	"strings"
+
+	"github.com/alecthomas/participle/v2/lexer"
+)
+
+// refDigestMain prints a digest of the results of every corpus document under every world and
+// build variant, and of every corpus input under every lexer definition.  The driver's self-test
+// compares the digest of the instrumented build with that of an uninstrumented build of the same
+// tree: the instrumenter must not change what participle computes.
+func refDigestMain(args []string) {
+	h := fnv.New64a()
+	n := 0
+	add := func(s string) {
+		h.Write([]byte(s))
+		h.Write([]byte{0})
+		n++
+	}
+	delims := runDelims(424242)
+	worlds := append([]*world{}, parseWorlds...)
+	worlds = append(worlds, worldCallbacks)
+	for _, w := range worlds {
+		for _, gen := range []bool{false, true} {
+			if gen && (w.hasGen == nil || !w.hasGen()) {
+				continue
+			}
+			for _, la := range w.lookaheads() {
+				for _, narrow := range []bool{false, true} {
+					p := w.build(buildOpts{lookahead: la, generated: gen, narrow: narrow})
+					add(p.String())
+					for _, d := range w.docs {
+						texts := []string{d.text}
+						if d.unitLen > 0 {
+							texts = append(texts, d.expand(7))
+						}
+						if d.nest != nil {
+							texts = append(texts, d.nest(9))
+						}
+						for _, t := range texts {
+							t = instantiate(t, delims)
+							for cut := 0; cut <= 2; cut++ {
+								in := t
+								if cut > 0 && len(t) > 2 {
+									in = t[:len(t)*cut/3]
+								}
+								add(call(func() (interface{}, error) { return p.ParseString("ref", in) }).desc())
+								add(lexCall(func() ([]lexer.Token, error) { return p.Lex("ref", strings.NewReader(in)) }).desc())
+							}
+						}
+					}
+				}
+			}
+		}
+	}
+	for _, ld := range lexDefs {
+		defs := []lexer.Definition{ld.build()}
+		if ld.genName != "" && generatedDefs[ld.genName] != nil {
+			defs = append(defs, generatedDefs[ld.genName])
+		}
+		for _, def := range defs {
+			for _, x := range ld.corpus {
+				x = instantiate(x, delims)
+				add(lexCall(func() ([]lexer.Token, error) {
+					lx, err := def.Lex("ref", strings.NewReader(x))
+					if err != nil {
+						return nil, err
+					}
+					return lexer.ConsumeAll(lx)
+				}).desc())
+			}
+		}
+	}
+	fmt.Printf("{\"digest\":%d,\"results\":%d}\n", h.Sum64(), n)
+}
